@@ -242,6 +242,12 @@ class Ctx:
         self.choices.setdefault(label, []).append(d.cur)
         return d.cur
 
+    def heavy(self) -> None:
+        """Marker placed by a harness after its cheap structural choices and before the expensive part (building and
+        running DAGs): during frontier enumeration the path stops here and becomes a work item for the pool."""
+        if self.split_depth is not None and len(self.prefix) > self.floor:
+            raise SplitPoint()
+
     def assume(self, cond: Any) -> None:
         if isinstance(cond, SBool):
             cond = cond.z
@@ -297,7 +303,7 @@ class Ctx:
             rec = {
                 "property": prop,
                 "msg": msg,
-                "data": data or {},
+                "data": _jsonable(data or {}),
                 "model": self.model(),
                 "choices": {k: list(v) for k, v in self.choices.items()},
                 "decisions": [d.cur for d in self.prefix[: self.pos]],
@@ -851,7 +857,7 @@ def explore(harness: Callable[[Ctx], Any], workers: int = 0, split_depth: int = 
     out = Result()
     deadline = t0 + budget_s
     workers = workers or min(16, os.cpu_count() or 1)
-    # phase 1: frontier
+    # phase 1: frontier = decision prefixes up to split_depth or up to the harness's heavy() marker
     c = Ctx(timeout_ms)
     base_axioms(c.solver)
     c.split_depth = split_depth if workers > 1 else None
@@ -871,7 +877,7 @@ def explore(harness: Callable[[Ctx], Any], workers: int = 0, split_depth: int = 
         mp = multiprocessing.get_context("fork")
         with mp.Pool(workers) as pool:
             jobs = [(harness, it, deadline, timeout_ms) for it in items]
-            for r in pool.imap_unordered(_worker, jobs, chunksize=1):
+            for r in pool.imap_unordered(_worker, jobs, chunksize=max(1, min(16, len(jobs) // (workers * 32)))):
                 out.stats.add(r["stats"])
                 out.merge_cov(r["coverage"])
                 out.errors.extend(r["errors"])
